@@ -352,6 +352,27 @@ def run_special(ctx):
             except (ValueError, IndexError):
                 wden = written
             expect('UNIT: written file after a value was set', dict(case, set='unit[1] = %s' % new), want, wden)
+    # FVAR: free variable m read and set through fvars[m] (counted from one): the written text denotes the new values
+    for m_, new in ((2, 0.9), (1, 0.75), (3, 0.125)):
+        lines_ = HEAD[:7] + ['FVAR 1.0 0.6 0.3'] + ATOMS + TAIL
+        text = '\n'.join(lines_) + '\n'
+        status, inner, shx = im.read_text(text, 'quiet')
+        case = {'instruction': 'FVAR 1.0 0.6 0.3 -> fvars[%d] = %s' % (m_, new), 'text': text}
+        want = [1.0, 0.6, 0.3]
+        expect('FVAR: value of free variable %d' % m_, case, want[m_ - 1], shx.fvars[m_])
+        try:
+            shx.fvars[m_] = new
+            want[m_ - 1] = new
+            got_ = [float(t) for t in str(shx.fvars).split()[1:]]
+            back_ = shx.fvars[m_]
+            wr_ = [l for l in im.write_text(shx).split('\n') if l.upper().startswith('FVAR')]
+            wden_ = [float(t) for t in wr_[0].split()[1:]] if wr_ else wr_
+        except Exception as ex:
+            common.add_violation(ctx, 'setting a free variable through fvars[m] raises (or leaves an object that cannot be written)', case, 'no exception', repr(ex))
+            continue
+        expect('FVAR: text after fvars[m] = value', case, want, got_)
+        expect('FVAR: fvars[m] after fvars[m] = value', case, new, back_)
+        expect('FVAR: written file after fvars[m] = value', case, want, wden_)
     # FRAG code[17] a[1] b[1] c[1] alpha[90] beta[90] gamma[90]: every prefix of the parameter list
     from shelxfile.shelx.cards import FRAG as _FRAG
     from shelxfile.shelx.shelx import Shelxfile as _Shx
